@@ -72,10 +72,26 @@ func vpH_C08_dict() {
 	}
 	seg := vpBuild(docs, 1025)
 	held := docs
-	variant := vpChoice("variant", 5)
+	variant := vpChoice("variant", 6)
 	switch variant {
 	case 0:
 		vpReach("C08 built")
+	case 5:
+		// the first input is a second-generation segment that still lists field f
+		// but lost every document that had it (empty dictionary); the second
+		// input has f, and the two deletion sets differ
+		e := []*vpDoc{{fields: []*vpField{{name: "f", length: 1, terms: []*vpTerm{{term: []byte("one"), freq: 1}}}}},
+			{fields: []*vpField{{name: "g", length: 1, terms: []*vpTerm{{term: []byte("z"), freq: 1}}}}}}
+		d0 := roaring.New()
+		d0.Add(0)
+		gb, _ := vpMergeBytes([]*Segment{vpBuild(e, 1025)}, []*roaring.Bitmap{d0}, 1025)
+		dr := roaring.New()
+		dr.Add(1)
+		mb, _ := vpMergeBytes([]*Segment{vpLoad(gb), seg}, []*roaring.Bitmap{nil, dr}, 1025)
+		seg = vpLoad(mb)
+		held = []*vpDoc{e[1], docs[0], docs[2]}
+		vpNote("feat:merged")
+		vpReach("C08 merged after an input whose field lost all its documents")
 	case 3, 4:
 		// the documents split over two segments that are merged: terms present in
 		// one input only (among them the empty term), in the first or in the second
